@@ -187,7 +187,7 @@ PROPS = {
         "outside": "PlainDateTime::add/until/since wrappers and DifferenceISODateTime (calendar + Duration plumbing) - not executed by Engine M yet",
     },
     "C09": {
-        "assumptions": ['Engine M jobs: fields are integral doubles within the exact-float envelope (|days| <= 1e8, other fields <= 2^40 / 2^30); generic helpers instantiated at T = i64'],
+        "assumptions": ['Engine M jobs: fields are integral doubles within the exact-float envelope (|days| <= 1e8, other fields <= 2^40: two such operands still sum below the 2^53 s cap, at 2^50 they need not); generic helpers instantiated at T = i64'],
         "m": "specs.c09",
         "k": [
             H("c09::c09_valid_sign", "q", "Duration::new: all ten fields integral in -1000..=1000 (symbolic): valid iff sign-uniform"),
@@ -204,7 +204,7 @@ PROPS = {
         ],
         "k_timeout": {"quick": 1500, "thorough": 3000},
         "bounds": {"all": "fields are symbolic doubles constrained to finite integral values (any magnitude for the validity harnesses); loops over the 10 fields unwound 12"},
-        "outside": "add/subtract/round/total without relativeTo (i128 div_rem chains under CBMC) - not built yet; non-integral field values",
+        "outside": "round/total without relativeTo (fractional results); compare/add/subtract outside the Engine M envelope (|days| <= 1e8, other fields <= 2^40) except the near-cap Kani harness; non-integral field values",
     },
     "C10": {
         "m": None,
